@@ -362,6 +362,78 @@ func (r *Result) Scribble() {
 	r.callerKeys = r.callerKeys[:0]
 }
 
+// OwnKeys treats a key listing the implementation returned (Keys(), the hashes handed to an iteration handler) as the CALLER's
+// property, the way a caller that derives other keys from the listing in place would: it returns a deep copy for the harness's own
+// use, then appends to every slice of the original (an append into spare capacity must not reach another slice of the same listing:
+// that is reported here) and overwrites every byte of it (a listing that aliases the implementation's state then shows in the next
+// observation of that state).
+func (r *Result) OwnKeys(prop string, step int, what string, keys [][]byte) [][]byte {
+	cp := make([][]byte, len(keys))
+	for i, k := range keys {
+		if k != nil {
+			cp[i] = append([]byte{}, k...)
+		}
+	}
+	for i := range keys {
+		if keys[i] == nil {
+			continue
+		}
+		_ = append(keys[i], 0xE1, 0xE2, 0xE3, 0xE4, 0xE5, 0xE6, 0xE7, 0xE8)
+		for j := range keys {
+			if j != i && keys[j] != nil && j > i && !bytesEq(keys[j], cp[j]) {
+				r.Failf(prop, step, "%s: appending to entry %d of the returned listing (%q) changed entry %d from %q to %q: the returned slices share one buffer", what, i, cp[i], j, cp[j], keys[j])
+				copy(keys[j], cp[j])
+			}
+		}
+	}
+	for _, k := range keys {
+		for i := range k {
+			k[i] ^= 0x5A
+		}
+	}
+	return cp
+}
+
+func bytesEq(a, b []byte) bool {
+	if len(a) != len(b) {
+		return false
+	}
+	for i := range a {
+		if a[i] != b[i] {
+			return false
+		}
+	}
+	return true
+}
+
+// Keeper is a handler-side caller that KEEPS the slices an iteration hands to its handler (to act on them after the iteration) and
+// later writes into them: both are legal for slices the library documents as copies. See() is called inside the handler.
+type Keeper struct{ kept, copies [][]byte }
+
+func (k *Keeper) See(b []byte) {
+	k.kept = append(k.kept, b)
+	k.copies = append(k.copies, append([]byte{}, b...))
+}
+
+// Done reports a kept slice that a LATER visit of the same iteration overwrote (one buffer reused for every visit), optionally
+// overwrites every kept slice (the caller's scratch use), and returns the copies taken at the time of each visit.
+func (k *Keeper) Done(r *Result, prop string, step int, what string, scribble bool) [][]byte {
+	for i := range k.kept {
+		if !bytesEq(k.kept[i], k.copies[i]) {
+			r.Failf(prop, step, "%s: the slice handed to the handler at visit %d read %q then; after the iteration it reads %q (a later visit reused its memory)", what, i, k.copies[i], k.kept[i])
+			break
+		}
+	}
+	if scribble {
+		for _, b := range k.kept {
+			for i := range b {
+				b[i] ^= 0x5A
+			}
+		}
+	}
+	return k.copies
+}
+
 // Inserted is an op inserted into the model's history, with the Go-side answer line.
 type Inserted struct {
 	Op  Op
